@@ -47,6 +47,11 @@ type wireRec struct {
 	Problem string
 	Resp    *gql.Response
 	Multi   bool
+	// multipart only
+	Files     map[string][]byte
+	FileNames map[string]string
+	FMap      map[string][]string
+	RawVars   map[string]interface{} // variables as they arrived (before file markers were set)
 }
 
 type callRec struct {
@@ -297,14 +302,25 @@ func stripUploads(v interface{}) interface{} {
 
 // serve is the simulated service node (runs on the driver goroutine).
 func (e *fedEnv) serve(svc int, m *simnet.Message) (int, []byte) {
-	reqs, mp, _, _, _, err := parseWire(m)
+	reqs, mp, files, fileNames, fmap, err := parseWire(m)
 	if err != nil {
 		e.wire = append(e.wire, &wireRec{Tag: m.Tag, Svc: svc, Seq: m.Seq, Problem: "undecodable request: " + err.Error()})
 		return 400, []byte(`{"errors":[{"message":"bad request"}]}`)
 	}
+	var rawVars map[string]interface{}
+	if mp {
+		// keep the variables as received, then put a marker naming the file at every mapped path
+		rb, _ := json.Marshal(reqs[0].Variables)
+		json.Unmarshal(rb, &rawVars)
+		for _, k := range sortedKeys(fmap) {
+			for _, path := range fmap[k] {
+				setAtPath(reqs[0].Variables, path, FileMarker(fileNames[k], files[k]))
+			}
+		}
+	}
 	out := make([]*gql.Response, len(reqs))
 	for i, r := range reqs {
-		wr := &wireRec{Tag: m.Tag, Svc: svc, Seq: m.Seq, Text: r.Query, Vars: r.Variables, OpName: r.OperationName, Multi: mp}
+		wr := &wireRec{Tag: m.Tag, Svc: svc, Seq: m.Seq, Text: r.Query, Vars: r.Variables, OpName: r.OperationName, Multi: mp, Files: files, FileNames: fileNames, FMap: fmap, RawVars: rawVars}
 		resp, op, errs := e.execs[svc].Run(r.Query, r.OperationName, r.Variables)
 		if op != nil {
 			wr.Kind = string(op.Operation)
@@ -563,4 +579,71 @@ func levelsPerURL(p *planner.QueryPlan) map[string]int {
 		out[u] = len(m)
 	}
 	return out
+}
+
+// FileMarker is the value a simulated service (and the reference) sees in place of an uploaded file.
+func FileMarker(name string, content []byte) string {
+	return fmt.Sprintf("upload:%s:%s:%d", name, HashKey(string(content)), len(content))
+}
+
+// setAtPath sets v at a "variables.a.b.0" path (ignores paths that do not resolve).
+func setAtPath(vars map[string]interface{}, path string, v interface{}) bool {
+	parts := strings.Split(path, ".")
+	if len(parts) < 2 || parts[0] != "variables" {
+		return false
+	}
+	var cur interface{} = vars
+	for i := 1; i < len(parts); i++ {
+		last := i == len(parts)-1
+		switch c := cur.(type) {
+		case map[string]interface{}:
+			if last {
+				c[parts[i]] = v
+				return true
+			}
+			cur = c[parts[i]]
+		case []interface{}:
+			n := -1
+			fmt.Sscanf(parts[i], "%d", &n)
+			if n < 0 || n >= len(c) {
+				return false
+			}
+			if last {
+				c[n] = v
+				return true
+			}
+			cur = c[n]
+		default:
+			return false
+		}
+	}
+	return false
+}
+
+func getAtPath(vars map[string]interface{}, path string) (interface{}, bool) {
+	parts := strings.Split(path, ".")
+	if len(parts) < 2 || parts[0] != "variables" {
+		return nil, false
+	}
+	var cur interface{} = vars
+	for i := 1; i < len(parts); i++ {
+		switch c := cur.(type) {
+		case map[string]interface{}:
+			nx, ok := c[parts[i]]
+			if !ok {
+				return nil, false
+			}
+			cur = nx
+		case []interface{}:
+			n := -1
+			fmt.Sscanf(parts[i], "%d", &n)
+			if n < 0 || n >= len(c) {
+				return nil, false
+			}
+			cur = c[n]
+		default:
+			return nil, false
+		}
+	}
+	return cur, true
 }
